@@ -233,6 +233,24 @@ pub fn raw_methods(methods: &Arc<Methods>, request: String, timeout: Duration) -
     }
 }
 
+thread_local! {
+    static LOCAL_RT: tokio::runtime::Runtime = tokio::runtime::Builder::new_current_thread().enable_all().build().expect("local runtime");
+}
+
+/// Run the handler on the calling thread (no task hop, no watchdog): lock events are then
+/// attributed to the client thread and a blocked handler blocks this thread.
+pub fn call_direct(methods: &Arc<Methods>, method: &str, params: Value) -> Resp {
+    let id = NEXT_ID.fetch_add(1, Ordering::Relaxed);
+    let req = json!({"jsonrpc":"2.0","id":id,"method":method,"params":params}).to_string();
+    let before = panics_len();
+    let r = std::panic::catch_unwind(std::panic::AssertUnwindSafe(|| LOCAL_RT.with(|rt| rt.block_on(async { methods.raw_json_request(&req, 1).await.map(|(r, _)| r) }))));
+    match r {
+        Err(_) => Resp::Panic(panics_since(before).first().map(|p| format!("{} @ {}", p.message, p.location)).unwrap_or_else(|| "panic".into())),
+        Ok(Err(e)) => Resp::Err { code: -32700, message: format!("framing: {}", e), data: Value::Null },
+        Ok(Ok(raw)) => parse_response(raw.get()),
+    }
+}
+
 pub fn parse_response(text: &str) -> Resp {
     let v: Value = match serde_json::from_str(text) {
         Ok(v) => v,
